@@ -43,7 +43,10 @@ CLAIMS = {
             "WorkerController.shutdown is modelled and proved idempotent; controller level (worksteal): along every sequence of controller events with legal steal answers the wire log has nothing behind "
             "a shutdown signal and at most one shutdown per worker; whole system (load, no undecodable message): in every reachable state no test follows the shutdown command in a live "
             "worker's inbox or the marker in its queue (C16_sys_load_nothing_behind_the_shutdown_marker; wire-delta facts per scheduler call and per loop iteration, Sched/LoadWd); "
-            "other modes: correspondence + wire monitors",
+            "WHOLE SYSTEM, hypothesis-free, over arbitrary executions of the composed system (all threads that write to the wire, incl. a receiver thread's own shutdown() after an undecodable message): "
+            "at most one shutdown signal per worker in ALL SIX modes (C16_sys_one_shutdown_signal_all_modes), and nothing at all addressed to a worker after its shutdown signal in the modes each, worksteal, "
+            "loadscope, loadfile, loadgroup (C16_sys_nothing_after_the_shutdown_signal: every send of these schedulers is guarded by shutting_down and sends change no flag); load's first schedule() sends "
+            "without looking at the flags, there the controller-level theorem carries the hypothesis",
             "contract invariants NoAfter/SentSync/Nodup/Bounded preserved by every act + refinement, lifted to the DSession loop by induction over events (Lean 4) ; differential correspondence of all six schedulers with wire monitors"),
     "C15": ("Lean theorems: mark_test_pending inserts at the front of the pool; per index #completed + #crash-reported = 1 + #re-queued when the ledger is empty; "
             "unsupported modes raise NotImplementedError. Whole system (--dist load, every execution without an undecodable message): at the end of a session without stop reason and "
